@@ -44,7 +44,12 @@ static void gate_case(Tape &t)
 	if (hashes == 2) { br_ssl_engine_set_hash(e->eng, br_md5_ID, nullptr); br_ssl_engine_set_hash(e->eng, br_sha1_ID, nullptr); br_ssl_engine_set_hash(e->eng, br_sha224_ID, nullptr); }
 	bool seeded = false;
 	std::string hist;
+	unsigned zero_at = t.u8() % 8;       // before reset #k (k=0..3) the application also "injects" zero bytes (an empty seed file ...): that is not entropy
 	for (unsigned k = 0; k < 4; k++) {
+		if (k == zero_at) {
+			br_ssl_engine_inject_entropy(e->eng, (zero_at & 1) ? (const void *)ent.data() : (const void *)"", 0);
+			hist += "inject(0) ";
+		}
 		if (k == inject_at) {
 			br_ssl_engine_inject_entropy(e->eng, ent.data(), ent.size());
 			seeded = true;
@@ -66,7 +71,7 @@ static void gate_case(Tape &t)
 	}
 	stats.cls(server ? "gate:server" : "gate:client");
 	stats.cls(seeded ? "gate:seeded" : "gate:never-seeded");
-	stats.eval(fmt("gate/%d/%u/%zu/%u", server, inject_at, elen, hashes));
+	stats.eval(fmt("gate/%d/%u/%zu/%u/%u", server, inject_at, elen, hashes, zero_at));
 	if (stats.want_sample()) stats.sample(fmt("gate %s hashes=%u: %s", server ? "server" : "client", hashes, hist.c_str()));
 }
 
